@@ -161,6 +161,30 @@ def run(ctx):
         series = tu.config_data(cfg)
         n = cfg["N"] * cfg["W"]
         npts = sum(s.shape[0] - cfg["W"] + 1 for s in series)
+        def fractional_after_integer():
+            # in the same process right after an integer-typed call, a FRACTIONAL switching cost in its scalar
+            # and per-pair forms (state left behind by an integer-typed call must not leak into a later call)
+            pair = {}
+            for name, b2 in (("int-first", 400), ("frac-scalar", 0.75), ("frac-vector", np.full(npts, 0.75)),
+                             ("int-again", np.int64(3)), ("frac-np.float32", np.float32(0.75))):
+                k2 = dict(base_kw)
+                k2.update(dict(sparsity_weight=float(lam), label_switching_cost=b2, min_meaningful_covariance=0.0))
+                tu.seed_all(cfg["seed"])
+                try:
+                    with warnings.catch_warnings():
+                        warnings.simplefilter("ignore")
+                        r = tu.run_joint(series, **k2) if cfg["joint"] else tu.run_single(series[0], **k2)
+                    pair[name] = tu.result_fields(r)
+                except Exception as e:
+                    pair[name] = ("raised", type(e).__name__, str(e)[:80])
+            for name in ("frac-vector", "frac-np.float32"):
+                if pair[name] != pair["frac-scalar"]:
+                    ctx.violation("impl-violation", f"front end: switching cost 0.75 as '{name}' and as a Python float give different results "
+                                  "(after integer-typed calls earlier in the process)", dict(cfg, form=name), {"site": "scalar-type"})
+
+        cfg_index = cfgs.index(cfg)
+        if cfg_index % 2 == 0:
+            fractional_after_integer()      # the integer-typed call is the FIRST call of this process on this data length
         variants = [("ref", dict(sparsity_weight=float(lam), label_switching_cost=float(beta), min_meaningful_covariance=0.0)),
                     ("np-scalars", dict(sparsity_weight=np.float32(lam), label_switching_cost=np.float32(beta),
                                         min_meaningful_covariance=np.float32(0))),
@@ -203,4 +227,6 @@ def run(ctx):
                     ctx.violation("impl-violation", f"front end: parameter form '{name}' changes the result in {diff}",
                                   dict(cfg, form=name), {"site": "scalar-type"})
             ctx.case(("e2e", repr(sorted(cfg.items())), name), nontrivial=True)
+        if cfg_index % 2 == 1:
+            fractional_after_integer()      # … or comes after calls in every other form
         ctx.count("end_to_end_configs")
